@@ -11,7 +11,9 @@ from vf.zoo import A, FD6, softabs_dense, unit, vec
 
 ID = "C11"
 LEVEL = "exploration"
-BUDGET = {"quick": 19200, "thorough": 192000}
+BUDGET = {"quick": 38400, "thorough": 384000}
+# coverage-guided phase (atheris drives the same strategy through fuzz_one_input; thorough tier only)
+FUZZ = {"quick": 0, "thorough": 320000, "include": ['mici.matrices']}
 RULE = (
     "Hypothesis draws one of the 12 concrete DifferentiableMatrix classes with every constructor option "
     "(sign +-1, lower/upper factor given as array / TriangularMatrix / InverseTriangularMatrix, inner matrix "
